@@ -42,14 +42,14 @@ func init() {
 			return 8
 		},
 		Exhaustive: false,
-		Rule: "case = (length n, variant): EVERY n in 0..300 x 4 variants (thorough 0..3000 x 3); items added with AddData/AddHash (variant 0: all AddData, no intermediate flush; variants >=1: PRNG mix of AddData/AddHash with 1-3 intermediate Flush points, some followed by replacing the object with a Recover()ed one). At length n: WitnessFor(i) for EVERY i<n is compared with an independently computed witness (own SHA3-256 binary tree over the leaf hashes, block decomposition of n by its binary digits), folded by the harness to the independently computed block root, and passed to Verify; then Flush, all witnesses again; Recover into a fresh object over the same bucket, Len and all witnesses again; add 1..17 more items (or up to the next power of two), all witnesses again; Flush+Recover once more. Non-trivial = distinct (n,variant) with n+1 not a power of two (some root slot is empty).",
+		Rule: "case = (length n, variant): EVERY n in 0..300 x 4 variants (thorough 0..3000 x 3); items added with AddData/AddHash (variant 0: all AddData, no intermediate flush; variants >=1: PRNG mix of AddData/AddHash with 1-3 intermediate Flush points, some followed by replacing the object with a Recover()ed one). At length n: WitnessFor(i) for EVERY i<n is compared with an independently computed witness (own SHA3-256 binary tree over the leaf hashes, block decomposition of n by its binary digits), folded by the harness to the independently computed block root, and passed to Verify; then Flush, all witnesses again; Recover into a fresh object over the same bucket, Len and all witnesses again; add 1..17 more items (or up to the next power of two), all witnesses again; Flush+Recover once more. Fault phase (a Flush that finally returns nil must have persisted everything): the same n items are re-added to a new accumulator whose bucket fails its k-th Set exactly once (every k of the first Flush for n<=32, 2 random k otherwise; variants 0 and 1), Flush is retried until nil, a fresh accumulator Recover()s from the plain bucket and every witness is checked again. Non-trivial = distinct (n,variant) with n+1 not a power of two (some root slot is empty).",
 		MinNonTrivial: func(t string) int {
 			if t == ev.Thorough {
 				return 8500
 			}
 			return 1100
 		},
-		Required:    []string{"witness_checked", "witness_after_recover", "flush_ok", "recover_ok", "lengths_with_empty_slot", "add_witness_checked", "witness_out_of_range_rejected"},
+		Required:    []string{"witness_checked", "witness_after_recover", "flush_ok", "recover_ok", "lengths_with_empty_slot", "add_witness_checked", "witness_out_of_range_rejected", "flush_retried_after_injected_write_failure", "witness_after_faulted_flush"},
 		Assumptions: []string{"golang.org/x/crypto/sha3 (called directly by the harness) is the reference hash", "db.NewMapDB bucket is a faithful key-value store"},
 		TimeoutSec: func(t string) int {
 			if t == ev.Thorough {
@@ -304,6 +304,137 @@ func (s *caseState) recover(stage string) *mta.Accumulator {
 	return a
 }
 
+// faultBucket fails the failAt-th Set exactly once (a transient write error).
+type faultBucket struct {
+	db.Bucket
+	sets   int
+	failAt int
+	failed bool
+}
+
+func (b *faultBucket) Set(k, v []byte) error {
+	b.sets++
+	if b.sets == b.failAt && !b.failed {
+		b.failed = true
+		return fmt.Errorf("verif: injected transient write failure (Set #%d)", b.sets)
+	}
+	return b.Bucket.Set(k, v)
+}
+
+// faultPhase: a Flush that finally reports success must have persisted
+// everything, also when an earlier attempt failed at ANY single write. For
+// every chosen k the same n items are added to a new accumulator whose bucket
+// fails its k-th Set once; Flush is retried until it returns nil; then a fresh
+// accumulator Recover()s from the plain bucket and every witness is checked.
+func faultPhase(c *ev.Ctx, r *rand.Rand, n int, parentDesc string) {
+	if n < 1 {
+		return
+	}
+	seed := r.Int63()
+	kinds := make([]bool, n)
+	for i := range kinds {
+		kinds[i] = r.Intn(4) == 0 // AddHash
+	}
+	build := func(bk db.Bucket, s *caseState) *mta.Accumulator {
+		ir := rand.New(rand.NewSource(seed))
+		a := &mta.Accumulator{KeyForState: s.key, Bucket: bk}
+		for k := 0; k < n && !s.stop; k++ {
+			s.addQuiet(a, ir, kinds[k])
+		}
+		return a
+	}
+	newState := func(desc string) (*caseState, db.Bucket) {
+		plain, err := db.NewMapDB().GetBucket("")
+		if err != nil {
+			panic(err)
+		}
+		return &caseState{c: c, n: n, bucket: plain, key: []byte("acc"), desc: desc}, plain
+	}
+	// count the writes of a failure-free first Flush
+	s0, plain0 := newState(parentDesc + " fault-phase count")
+	fb0 := &faultBucket{Bucket: plain0}
+	a0 := build(fb0, s0)
+	if s0.stop || a0.Flush() != nil {
+		return
+	}
+	w := fb0.sets
+	c.Count("flush_writes_counted", w)
+	var ks []int
+	if n <= 32 {
+		for k := 1; k <= w; k++ {
+			ks = append(ks, k)
+		}
+	} else {
+		ks = append(ks, 1+r.Intn(w), 1+r.Intn(w))
+	}
+	for _, k := range ks {
+		if c.Stopped() {
+			return
+		}
+		c.Eval(1)
+		s, plain := newState(fmt.Sprintf("%s fault-phase: item_seed=%d fail Set #%d of %d once, retry Flush until nil, Recover", parentDesc, seed, k, w))
+		fb := &faultBucket{Bucket: plain, failAt: k}
+		a := build(fb, s)
+		if s.stop {
+			return
+		}
+		tries, sawErr := 0, false
+		for {
+			tries++
+			var err error
+			if !s.guarded("flush.panic.after-write-failure", map[string]interface{}{"try": tries}, func() { err = a.Flush() }) {
+				break
+			}
+			if err == nil {
+				break
+			}
+			sawErr = true
+			if tries >= 4 {
+				s.viol("flush.keeps-failing-after-transient-write-failure", map[string]interface{}{"tries": tries, "err": err.Error()})
+				break
+			}
+		}
+		if !fb.failed {
+			continue
+		}
+		if sawErr {
+			c.Count("flush_retried_after_injected_write_failure", 1)
+		} else {
+			c.Count("flush_swallowed_injected_write_failure", 1)
+		}
+		s.bucket = plain
+		if na := s.recover("after-faulted-flush"); na != nil {
+			s.checkAll(na, "after-faulted-flush", "witness_after_faulted_flush")
+		}
+		c.NonTrivial(fmt.Sprintf("F/%d/%d/%d", n, k, seed))
+	}
+}
+
+// addQuiet adds one item and updates the model without checking the Add witness.
+func (s *caseState) addQuiet(a *mta.Accumulator, r *rand.Rand, useHash bool) {
+	d := make([]byte, 1+r.Intn(40))
+	r.Read(d)
+	d = append(d, byte(len(s.leaves)), byte(len(s.leaves)>>8))
+	lh := h256(d)
+	ok := s.guarded("add.panic", map[string]interface{}{"data": hex.EncodeToString(d)}, func() {
+		if useHash {
+			a.AddHash(lh)
+		} else {
+			a.AddData(d)
+		}
+	})
+	s.leaves = append(s.leaves, lh)
+	if useHash {
+		s.items = append(s.items, "H:"+hex.EncodeToString(lh))
+	} else {
+		s.items = append(s.items, "D:"+hex.EncodeToString(d))
+	}
+	s.m.append(lh)
+	if !ok {
+		s.stop = true
+	}
+}
+
 func run(c *ev.Ctx) {
 	mx := maxN(c.Tier)
 	c.Cases(func(ci int, r *rand.Rand) {
@@ -380,6 +511,9 @@ func run(c *ev.Ctx) {
 			if na := s.recover("grown"); na != nil {
 				s.checkAll(na, "grown-after-recover", "witness_after_recover")
 			}
+		}
+		if variant == 0 || (n > 32 && variant == 1) {
+			faultPhase(c, r, n, fmt.Sprintf("n=%d variant=%d", n, variant))
 		}
 		if c.WantSample() && n > 2 {
 			i := r.Intn(len(s.leaves))
